@@ -82,7 +82,8 @@ impl Params {
                 // beyond the stated bound (two readers, four commits) in one run out of six
                 commits: if r.chance(1, 6) { r.range(5, 7) as u32 } else { r.range(2, 4) as u32 },
                 readers: if r.chance(1, 6) { 3 } else { r.range(1, 2) as u32 },
-                writers: 1,
+                // one run in four: the chain of commits comes from two writer threads
+                writers: if r.chance(1, 4) { 2 } else { 1 },
                 rounds: r.range(1, 2) as u32,
                 rereads: r.range(1, 3) as u32,
                 grow: r.chance(1, 8),
@@ -224,6 +225,36 @@ fn write_version(db: &DB, p: &Params, v: u32) -> Result<(), String> {
     tx.commit().map_err(|e| format!("commit: {}", e))
 }
 
+/// The next link of the chain, whichever thread writes it: read the current version inside the
+/// write transaction, write its successor. The state of version v is a function of v alone, so
+/// the chain is the same however the writer threads interleave.
+fn write_next_version(db: &DB, p: &Params) -> Result<u32, String> {
+    let tx = db.tx(true).map_err(|e| format!("tx(true): {}", e))?;
+    let v;
+    {
+        let b = tx.get_or_create_bucket("d").map_err(|e| format!("bucket: {}", e))?;
+        let cur = match b.cursor().next() {
+            Some(Data::KeyValue(kv)) if kv.value().len() >= 4 => u32::from_be_bytes(kv.value()[0..4].try_into().unwrap()),
+            _ => 0,
+        };
+        if cur > 1000 {
+            return Err(format!("the writer itself reads a damaged version number {}", cur));
+        }
+        v = cur + 1;
+        let now = keyset(p, v);
+        for k in keyset(p, v - 1) {
+            if !now.contains(&k) {
+                b.delete(key_of(k)).map_err(|e| format!("delete: {}", e))?;
+            }
+        }
+        for k in now {
+            b.put(key_of(k), value_of(p, v, k)).map_err(|e| format!("put: {}", e))?;
+        }
+    }
+    tx.commit().map_err(|e| format!("commit: {}", e))?;
+    Ok(v)
+}
+
 /// Read everything through one transaction; Ok(version) if exactly one committed state shows.
 fn read_version(tx: &jammdb::Tx, p: &Params) -> Result<u32, String> {
     let b = tx.get_bucket("d").map_err(|e| format!("get_bucket: {}", e))?;
@@ -282,16 +313,25 @@ fn scenario_c04(p: Params, path: String) {
     };
     let committed = Arc::new(AtomicU64::new(0));
     let mut hs = Vec::new();
-    {
+    let writers = p.writers.clamp(1, 2);
+    for w in 0..writers {
         let db = db.clone();
         let p = p.clone();
         let committed = committed.clone();
+        // the chain has p.commits links in total
+        let mine = if writers == 1 { p.commits } else if w == 0 { p.commits - p.commits / 2 } else { p.commits / 2 };
         hs.push(shuttle::thread::spawn(move || {
-            for v in 1..=p.commits {
-                if let Err(e) = write_version(&db, &p, v) {
-                    return report("sh-writer", "commit", format!("writer, version {}: {}", v, e));
+            for i in 0..mine {
+                let res = if writers == 1 { write_version(&db, &p, i + 1).map(|_| i + 1) } else { write_next_version(&db, &p) };
+                match res {
+                    Err(e) => return report("sh-writer", "commit", format!("writer {}, commit {}: {}", w, i, e)),
+                    Ok(v) => {
+                        committed.fetch_max(v as u64, Ordering::SeqCst);
+                        if writers > 1 {
+                            probe("chain_link_by_second_writer_thread");
+                        }
+                    }
                 }
-                committed.store(v as u64, Ordering::SeqCst);
             }
         }));
     }
